@@ -56,7 +56,7 @@ Definition steal_schedule : list move :=
    (after its timeout: that part of the contract holds) and nobody is left who could release W1: no thread is inside
    set(), no thread is woken; the other threads have finished or are idle *)
 Lemma unrepaired_loses_wakeup :
-  let w := run_unrepaired (init steal_scripts (fun _ => true) false 0) steal_schedule in
+  let w := run_unrepaired (init steal_scripts res100 (fun _ => true) false 0) steal_schedule in
   monf w = true /\ blocked_on MC (st (ps w) 0%nat) = true /\ mark w 0%nat = true /\
   hd_error (trace w) = Some (EvExit 2%nat 102) /\
   In (EvRet 1%nat (MonWaitT 10) 0) (trace w) /\
